@@ -20,7 +20,7 @@ register(
         "GtModel.C10.xml_no_list_edits_same_length_children",
         "GtModel.C10.xml_list_edits_allowed",
     ],
-    streams=["script", "scriptx", "scriptxml"],
+    streams=["script", "scriptx", "scriptxml", "optplumb"],
     assumptions=[
         "the engine has fully tightened every bound (the model is the static final script)",
         "trees are those json.build_tree makes (a CSV table = the list of lists of strings csv.build_tree makes, rows "
